@@ -124,8 +124,14 @@ func (e *Engine) verifyFunc(fn *ssa.Function, ct *Contract) (r *FnRun) {
 		r.cover("entry", st)
 	}
 	if uf := ct.Opts["deterministic"]; uf != "" {
-		why := e.purityScan(fn)
-		r.staticObl("FRAME", "deterministic:"+uf, why == "", "result is a function of the arguments only: "+why, st)
+		name, args := splitDeterministic(uf)
+		var why string
+		if args == nil {
+			why = e.purityScan(fn)
+		} else {
+			why = e.deterministicScan(fn, args)
+		}
+		r.staticObl("FRAME", "deterministic:"+name, why == "", "result is a function of the declared arguments only: "+why, st)
 	}
 	r.execBlock(fr, st, fn.Blocks[0], nil, func(fr2 *Frame, st2 *State, res []Val) {
 		r.cur = st2
@@ -157,7 +163,7 @@ func (r *FnRun) checkPost(fr *Frame, st *State, res []Val) {
 			vars["err"] = res[rs.Len()-1]
 		}
 	}
-	env := &specEnv{st: st, old: fr.old, vars: vars, pkg: fnPkgPath(fr.fn), oldTop: fr.old.top}
+	env := &specEnv{st: st, old: fr.old, vars: vars, pkg: fnPkgPath(fr.fn), oldTop: fr.old.top, fr: fr}
 	for _, cl := range ct.Ensures {
 		env.what = ct.Name + " ensures " + cl.Label
 		r.obligeClause("POST", cl.Label, cl.E, env, st)
